@@ -5,7 +5,7 @@ from trees import *
 from polys import *
 
 
-def gen_configurator(rng, quick=True, int_leaf=False, nested=True, top_items=False, nest_p=0.3, fix_root_p=0.0):
+def gen_configurator(rng, quick=True, int_leaf=False, nested=True, top_items=False, nest_p=0.3, fix_root_p=0.0, odd_items_p=0.0):
     """AST of a StingyConfigurator over boolean items (optionally one integer item `t`)"""
     items = list("abcdefgh")[:rng.randint(3, 5 if quick else 7)]
     # item ids come in several shapes; some look like generated ids ("VAR…"), some contain blanks / dashes / non-ASCII
@@ -25,7 +25,12 @@ def gen_configurator(rng, quick=True, int_leaf=False, nested=True, top_items=Fal
         return f"R{k[0]}"
     # how the items are handed over: id strings, plain variable objects, or instances of a variable subclass
     form = rng.choice(["str", "str", "str", "var", "sub"])
+    odd = {}
+    if odd_items_p and rng.random() < odd_items_p:
+        # one item declared (wherever it occurs) as a variable object with bounds of its own: fixed, excluded, integer-valued
+        odd[rng.choice(items)] = rng.choice([(1, 1), (0, 0), (0, 3), (1, 2), (1, 1)])
     def item(i):
+        if i in odd: return {"c": "var", "id": i, "lo": odd[i][0], "hi": odd[i][1]}
         if form == "str": return {"c": "str", "id": i}
         if form == "var": return {"c": "var", "id": i, "lo": 0, "hi": 1}
         return {"c": "var", "id": i, "lo": 0, "hi": 1, "$sub": True}
